@@ -23,11 +23,17 @@ AllOps ==
   \cup {O(c, op, "", 0, 0, k, 0) : c \in Ctxs, op \in {"mkproxy", "proxy_read"}, k \in PKinds}
   \cup {O(c, "proxy_mutate", "", 0, v, k, 0) : c \in Ctxs, v \in Vals, k \in PKinds}
   \cup {O(c, op, "", 0, 0, k, 0) : c \in Ctxs, op \in {"proxy_pop", "proxy_clear"}, k \in PKinds}
+  \cup {O(c, op, "", 0, v, k, 0) : c \in Ctxs, op \in {"proxy_iadd", "proxy_isub", "proxy_ior"}, v \in IopArgs, k \in PKinds}
+  \cup {O(c, "proxy_imul", "", 0, 2, k, 0) : c \in Ctxs, k \in PKinds}
   \cup {O(c, "spawn", "", 0, 0, "", ch) : c \in Ctxs, ch \in Ctxs}
 
 Allowed(S, o) == /\ o.op \in OpKinds
                  /\ Enabled(S, o)
                  /\ (o.op = "push" => Len(S.stack[o.ctx]) < MaxStack)
+                 \* lists grown through a proxy stay small
+                 /\ (o.op \in {"proxy_iadd", "proxy_imul"} =>
+                        LET b == Bound(S, o.ctx, o.k) IN
+                        IF b = NoBox THEN TRUE ELSE IF KindOf(b) # "list" THEN TRUE ELSE S.cont[b] <= 2)
                  \* children are created in the order 2, 3, ... (symmetry: ids are only names)
                  /\ (o.op = "spawn" => \A d \in Ctxs : (d < o.child) => d \in S.alive)
 
